@@ -51,12 +51,26 @@ type slot struct {
 	rtFail bool // the runtime itself fails the synchronization after the callback returned
 	done   chan struct{}
 
+	mu      sync.Mutex
+	cancel  context.CancelFunc
+	aborted bool
+
 	// results, valid after done is closed
 	returned bool // the NRI callback returned (did not panic)
 	updates  []*api.ContainerUpdate
 	err      error
 	panicked string
 	elapsed  time.Duration
+}
+
+// abort cancels the context of the registration's sync callback (see observer.stuck).
+func (s *slot) abort() {
+	s.mu.Lock()
+	s.aborted = true
+	if s.cancel != nil {
+		s.cancel()
+	}
+	s.mu.Unlock()
 }
 
 var errRuntimeFails = errors.New("verif: runtime failed to apply the plugin's updates")
@@ -143,7 +157,15 @@ func (f *fixture) syncFn(ctx context.Context, cb adaptation.SyncCB) (err error) 
 		s.elapsed = time.Since(t0)
 		close(s.done)
 	}()
-	u, e := cb(ctx, s.pods, s.ctrs)
+	cctx, cancel := context.WithCancel(ctx)
+	defer cancel()
+	s.mu.Lock()
+	s.cancel = cancel
+	if s.aborted {
+		cancel()
+	}
+	s.mu.Unlock()
+	u, e := cb(cctx, s.pods, s.ctrs)
 	s.returned, s.updates, s.err = true, u, e
 	if e == nil && s.rtFail {
 		return errRuntimeFails
